@@ -1,33 +1,33 @@
 SPECIFICATION Spec
 CONSTANTS
   Peers = {1, 2}
-  Blocks = {2, 3, 4, 5, 6}
+  Blocks = {2, 3, 4, 5}
   W = 2
   Timeout = 2
   PruneWindow = 20
   SlowWindow = 1
   Window = 1
-  Limit = 2
+  Limit = 1
   MaxHeaders = 2
   OneDay = 8192
   Deltas = {3}
   MaxAdv = 1
   Low0 = 1
-  GH = TRUE
+  GH = FALSE
   Depth = 0
-  Trees = {}
+  Trees <- TreesForkTop
 INVARIANT TreeOK
 INVARIANT StoreOK
 INVARIANT PeersOK
 INVARIANT InflightOK
-INVARIANT RequestSafe
-INVARIANT RequestLive
-INVARIANT LastCommonOK
 INVARIANT IBOnePeerPerBlock
 INVARIANT IBListedIsInflight
 INVARIANT IBInflightIsListed
 INVARIANT IBStaleOK
 INVARIANT IBTraceLive
+PROPERTY RequestSafeMC
+PROPERTY RequestLiveMC
+PROPERTY LastCommonMC
 PROPERTY NeverTwiceMC
 PROPERTY OnlyReleasedByMC
 VIEW AgeView
